@@ -27,7 +27,12 @@ let () = iter_lines (fun line ->
       let cmd = str_of_field cmd in
       let a = list_of_field args in
       let dom = is_cmd cmd && forallb safe a && head_ok a && last_ok a in
-      let r = match eval_call (env_of_field env) (cmd :: a) with
+      (* the call is computed by the INDEX-FAITHFUL model EvalSerIx.eval_call_ix (index-faithful parser and binder,
+         `instructions[0]`, explicit Panic = P); by C09_ix_refines it equals the suffix model's, a disagreement is
+         printed as IXDIFF and reported by the check *)
+      let e = env_of_field env in
+      let ci = eval_call_ix e (cmd :: a) in
+      let r = if ci <> eval_call e (cmd :: a) then "IXDIFF" else match ci with
         | Call (_, _, command, bound) -> if command = cmd then "A" ^ field_of_list bound else "X" ^ field_of_str command
         | NoCall -> "N" | CallErr _ -> "E" | CallPanic -> "P" in
       Printf.printf "%s\t%s\t%s\t%s\t%s\n" (b2s dom) (classes a) r (field_of_str (serialise (cmd :: a))) (b2s (forallb safe_simple a))
